@@ -59,6 +59,8 @@ pub enum P {
     TrailingComment(String),
     /// n blank lines
     Blank(usize),
+    /// a line break that is never replaced by `;` (after `do`, `then`, a function header …)
+    Nl,
 }
 
 pub struct Gen<'a> {
@@ -534,6 +536,7 @@ impl<'a> Gen<'a> {
                         P::OwnLineComment(c) => v.push(format!("\u{0}own{c}")),
                         P::TrailingComment(c) => v.push(format!("\u{0}trail{c}")),
                         P::Blank(n) => v.push(format!("\u{0}blank{n}")),
+                        P::Nl => {}
                     }
                 }
                 v
@@ -1148,6 +1151,14 @@ pub fn render(rng: &mut Rng, pieces: &[P], st: &Style) -> String {
         match &pieces[k] {
             P::Indent => level += 1,
             P::Dedent => level = level.saturating_sub(1),
+            P::Nl => {
+                if !at_line_start {
+                    nl(rng, &mut out);
+                    at_line_start = true;
+                    must_newline = false;
+                    prev_tok = None;
+                }
+            }
             P::Blank(n) => {
                 if !at_line_start {
                     nl(rng, &mut out);
